@@ -140,14 +140,20 @@ def mon_c13(case, ots, drained_tail):
         return None
     # the tail must have actually run to an accepting transport: the last flush returned ok / closed / already
     # (at most two calls are needed once the transport accepts: the last two ops must be such flushes)
-    if n < 2 or v.ops[last] != 'f' or v.ops[last - 1] != 'f':
+    drivers = ('f', 'r', 'c:-')
+    if n < 2 or v.ops[last] not in drivers or v.ops[last - 1] != v.ops[last]:
         return None
-    if ots[last].res not in ('ok', 'err:closed', 'err:already') or ots[last - 1].res not in ('ok', 'err:closed', 'err:already'):
+    okres = ('ok', 'err:closed', 'err:already', 'err:io:wb') if v.ops[last] == 'r' else ('ok', 'err:closed', 'err:already')
+    if ots[last].res not in okres or ots[last - 1].res not in okres:
         return None
+    # a read that blocked must have blocked on the READ side (no write/flush refusal in the last two calls)
+    for ot in ots[last - 1:]:
+        if any((e.startswith('W:') and ':e:' in e) or e.startswith('F:e:') for e in ot.events):
+            return None
     has_close = any(f.opcode == 8 and f.complete for f in v.frames)
     if not has_close:
-        return 'close-lost: closing began at op %d (%s) but after the transport accepted again and %d flush calls the wire holds no Close frame' % (
-            v.began_closing_at, v.ops[v.began_closing_at], drained_tail)
+        return 'close-lost%s: closing began at op %d (%s) but after the transport accepted again and %d %s calls the wire holds no Close frame' % (
+            '-read-only' if v.ops[last] == 'r' else '', v.began_closing_at, v.ops[v.began_closing_at], drained_tail, v.ops[last])
     return None
 
 def mon_c12(case, ots):
